@@ -76,7 +76,8 @@ pub struct RxRule {
 
 #[derive(Serialize, Deserialize, Clone, Debug, PartialEq, Eq, Hash, Default)]
 pub struct PeSpec {
-    /// 0 pass, 1 modify (kind += 1), 2 consume when uid % m == r
+    /// 0 pass, 1 modify (kind += 1), 2 consume when uid % m == r, 3 consume self messages and notify a task,
+    /// 4 panic, 5 request shutdown-and-restart (after gate % 3 half seconds) when uid % m == r and pass the message on
     pub mode: u8,
     pub m: u32,
     pub r: u32,
@@ -236,6 +237,8 @@ pub struct RunCtx {
     pub ledger: crate::bodies::Ledger,
     /// user code of another simulation of this process ran inside this one (state leaked between simulations)
     pub foreign: bool,
+    /// shutdown requests made by processing elements (bounded per run)
+    pub pe_shutdowns: u32,
 }
 
 thread_local! {
@@ -721,6 +724,20 @@ impl ProcessingElement for ScriptPe {
             let _held = msg;
             panic!("scripted panic in processing element {} of module {}", self.id, self.m);
         }
+        // mode 5: the element asks for a shutdown-and-restart of its module and passes the message on: the handler
+        // must still see it, the shutdown happens at the end of the event
+        if self.spec.mode == 5 && uid % self.spec.m.max(1) == self.spec.r % self.spec.m.max(1) {
+            let go = with_ctx(|c| {
+                c.pe_shutdowns += 1;
+                c.pe_shutdowns <= 3
+            })
+            .unwrap_or(false);
+            if go && !is_twin() {
+                rec(self.m, Ev::ShutdownReq { restart: i64::from(self.spec.gate % 3) * 500_000_000 });
+                current().shutdow_and_restart_in(Duration::from_nanos(u64::from(self.spec.gate % 3) * 500_000_000));
+            }
+            return Some(msg);
+        }
         match self.spec.mode {
             1 => {
                 msg.header_mut().kind = kind.wrapping_add(1) & 0x0fff;
@@ -920,7 +937,7 @@ pub fn run_net(prog: &NetProgram, opts: &RunOpts) -> NetResult {
     let nmod = prog.modules.len();
     let flat: Vec<Vec<(String, usize, usize)>> = prog.modules.iter().map(flat_gates).collect();
     CTX.with(|c| {
-        *c.borrow_mut() = Some(RunCtx { trace: Vec::new(), ids: BTreeMap::new(), building: 0, prog: prog.clone(), flat_gates: flat.clone(), ledger: crate::bodies::Ledger::default(), foreign: false });
+        *c.borrow_mut() = Some(RunCtx { trace: Vec::new(), ids: BTreeMap::new(), building: 0, prog: prog.clone(), flat_gates: flat.clone(), ledger: crate::bodies::Ledger::default(), foreign: false, pe_shutdowns: 0 });
     });
     RUN_ID.with(|r| *r.borrow_mut() += 1);
     PE_SENDS.with(|p| *p.borrow_mut() = 0);
